@@ -121,7 +121,9 @@ def gen_leaf(r, kind=None, big=False):
     if k in ("u64", "f64"):
         return (k, r.choice(lanes(64) + [0x7ff0000000000000, 0xfff0000000000000, 0x7ff8000000000000, 0x7ff0000000000001]) if r.chance(1, 2) else r.below(1 << 64))
     if k == "time":
-        return (k, r.choice([TIME_LO, TIME_LO + 1, -1, 0, 1, TIME_HI - 1, TIME_HI, 1700000000]) if r.chance(1, 2) else r.range(TIME_LO, TIME_HI))
+        # (1483228799 = 2016-12-31T23:59:59Z and 1341100799 = 2012-06-30T23:59:59Z are 59 mod 60 and 3 mod 7: the harness builds those
+        # as LEAP seconds, 23:59:60.2; the other two :59 seconds are ordinary)
+        return (k, r.choice([TIME_LO, TIME_LO + 1, -1, 0, 1, TIME_HI - 1, TIME_HI, 1700000000, 1483228799, 78796799, 536457599, 1341100799]) if r.chance(1, 2) else r.range(TIME_LO, TIME_HI))
     raise ValueError(k)
 
 
